@@ -443,7 +443,9 @@ class SMCSampler(MCMCSampler):
         if beta is None:
             beta = state.get("beta", 0.0)
         iteration = state.get("iteration", 0)
-        self.history = state.get("history", SMCHistory())
+        # Work on a copy: the run appends to the history, and a checkpoint
+        # dictionary must stay usable for another resume
+        self.history = copy.deepcopy(state.get("history", SMCHistory()))
         rng_state = state.get("rng_state")
         if rng_state is not None and hasattr(self.rng, "bit_generator"):
             self.rng.bit_generator.state = rng_state
